@@ -245,9 +245,17 @@ Fixpoint paths (t : rt) : list (list Z) :=
   match t with T _ i ch => [i_eqc i] :: map (cons (i_eqc i)) (flat_map paths ch) end.
 Notation paths_f := (flat_map paths).
 
+(* the mark rule of _copy_children inside an added branch (the top itself is
+   [new]): every node of the first level carries ADDED or MOVED_HERE, every
+   deeper node carries no mark or MOVED_HERE (the re-classification can only
+   turn a node of the branch into MOVED_HERE) *)
+Definition deep_mark_ok (z : rt) : Prop := mark z = None \/ has_dc z MOVED_HERE = true.
+Definition branch_marks (x : rt) : Prop :=
+  Forall (fun y => new y = true /\ Forall deep_mark_ok (pre_f (rch y))) (rch x).
+
 Definition copy1 (x c : rt) : Prop :=
   paths x = paths c /\ Forall (fun y => Nat.odd (rid y) = true /\ gone y = false) (pre x) /\
-  ids_t x = map id1 (ids_t c).
+  ids_t x = map id1 (ids_t c) /\ branch_marks x.
 
 Definition is_some {X} (o : option X) : bool := match o with Some _ => true | None => false end.
 Definition order_mark (x : rt) : bool := negb (new x) && negb (gone x) && is_some (mark x).
@@ -327,9 +335,27 @@ Proof.
   pose proof (copy_child_ids c m_added) as Hc. unfold ids_t in Hc. now rewrite Hc, IHc.
 Qed.
 
+Lemma copy_child_nil_marks : forall n, Forall (fun z => mark z = None) (pre (copy_child [] n)).
+Proof.
+  induction n as [id i ch IH] using rt_ind'. cbn [copy_child pre]. constructor; [reflexivity|].
+  apply Forall_forall. intros z Hz. apply in_flat_map in Hz. destruct Hz as [c' [Hc' Hz]].
+  apply in_map_iff in Hc'. destruct Hc' as [c [<- Hc]]. rewrite Forall_forall in IH.
+  specialize (IH c Hc). rewrite Forall_forall in IH. auto.
+Qed.
+
+Lemma add_top_branch_marks c1 : branch_marks (add_top c1).
+Proof.
+  destruct c1 as [id i ch]. unfold branch_marks, add_top, copy_children. cbn [rid rinfo rch].
+  apply Forall_forall. intros y Hy. apply in_map_iff in Hy. destruct Hy as [c [<- Hc]]. split.
+  - now destruct c.
+  - destruct c as [idc ic chc]. cbn [copy_child rch]. apply Forall_forall. intros z Hz.
+    apply in_flat_map in Hz. destruct Hz as [c' [Hc' Hz]]. apply in_map_iff in Hc'. destruct Hc' as [c2 [<- Hc2]].
+    left. pose proof (copy_child_nil_marks c2) as H. rewrite Forall_forall in H. auto.
+Qed.
+
 Lemma add_top_copy1 c1 : copy1 (add_top c1) c1.
 Proof.
-  refine ((fun H => conj (proj1 H) (conj (proj2 H) (add_top_ids c1))) _).
+  refine ((fun H => conj (proj1 H) (conj (proj2 H) (conj (add_top_ids c1) (add_top_branch_marks c1)))) _).
   destruct c1 as [id i ch]. split.
   - unfold add_top. cbn [rid rinfo rch].
     change (paths (T (id1 id) (res_info i m_added) (copy_children m_added ch)) = paths (T id i ch)).
@@ -601,6 +627,36 @@ Proof. induction l as [|x l IH]; cbn; intros H; [reflexivity|]. rewrite H by now
 Lemma map_ext_in' {X Y} (f g : X -> Y) l : (forall x, In x l -> f x = g x) -> map f l = map g l.
 Proof. apply map_ext_in. Qed.
 
+Lemma has_dc_info' x c : has_dc x c = info_has_dc (rinfo x) c.
+Proof. reflexivity. Qed.
+
+Lemma new_step g y : step_ok g -> new y = true -> new (map_info g y) = true.
+Proof.
+  intros Hg Hn. unfold new in *. rewrite map_info_rinfo.
+  destruct (Hg (rid y) (rinfo y)) as [-> |[[_ ->]|[Hr _]]]; [exact Hn| |].
+  - unfold new_i. rewrite !info_has_dc_set_b. reflexivity.
+  - pose proof (gone_new_excl _ (removed_gone _ Hr)). congruence.
+Qed.
+
+Lemma deep_mark_step g z : step_ok g -> deep_mark_ok z -> deep_mark_ok (map_info g z).
+Proof.
+  intros Hg H. unfold deep_mark_ok in *. rewrite has_dc_info' , map_info_rinfo. unfold mark, rmeta. rewrite map_info_rinfo.
+  destruct (Hg (rid z) (rinfo z)) as [-> |[[_ ->]|[Hr _]]]; [exact H| |].
+  - right. now apply info_has_dc_set.
+  - exfalso. destruct H as [H|H].
+    + unfold info_has_dc in Hr. unfold mark, rmeta in H. now rewrite H in Hr.
+    + pose proof (info_has_dc_unique _ _ _ Hr H). discriminate.
+Qed.
+
+Lemma branch_marks_step g x : step_ok g -> branch_marks x -> branch_marks (map_info g x).
+Proof.
+  intros Hg H. unfold branch_marks in *. rewrite map_info_rch. apply Forall_forall. intros y' Hy'.
+  apply in_map_iff in Hy'. destruct Hy' as [y [<- Hy]]. rewrite Forall_forall in H. destruct (H y Hy) as [N D]. split.
+  - now apply new_step.
+  - rewrite map_info_rch, map_info_pre_f. apply Forall_forall. intros z' Hz'. apply in_map_iff in Hz'.
+    destruct Hz' as [z [<- Hz]]. rewrite Forall_forall in D. apply deep_mark_step; auto.
+Qed.
+
 Lemma lvl_step ordered g : step_ok g -> forall ren r ch0 ch1,
   lvl ordered ren r ch0 ch1 -> lvl ordered ren (map (map_info g) r) ch0 ch1.
 Proof.
@@ -619,8 +675,8 @@ Proof.
     rewrite map_info_rid. rewrite (proj2 (KN x Hx)). now apply L3.
   - intros x' Hx' Hn'. apply in_map_iff in Hx'. destruct Hx' as [x [<- Hx]].
     destruct (KN x Hx) as [K N]. rewrite N in Hn'. rewrite K.
-    destruct (L4 x Hx Hn') as [Hno [c1 [H1 [K1 [P [O I]]]]]]. split; [exact Hno|]. exists c1.
-    refine (conj H1 (conj K1 (conj _ (conj _ _)))).
+    destruct (L4 x Hx Hn') as [Hno [c1 [H1 [K1 [P [O [I BM]]]]]]]. split; [exact Hno|]. exists c1.
+    refine (conj H1 (conj K1 (conj _ (conj _ (conj _ (branch_marks_step g x Hg BM)))))).
     + rewrite map_info_paths; [exact P|apply step_ok_eqc, Hg].
     + rewrite map_info_pre. apply Forall_forall. intros y' Hy'. apply in_map_iff in Hy'. destruct Hy' as [y [<- Hy]].
       rewrite Forall_forall in O. apply (step_node g y Hg). apply O, Hy.
